@@ -1218,10 +1218,12 @@ def run_pair(ck, P, n_types, n_values, label_filter=None):
         else:
             cases += [{'k': 'lift', 'tyB': tb, 'v': w['value']},
                       {'k': 'nvr', 'tyA': ta, 'v': w['value']},
+                      {'k': 'tight', 'side': 'A', 'ty': ta, 'doc': w['doc']},
+                      {'k': 'nvrdoc', 'tyA': ta, 'doc': w['doc']},
                       {'k': 'dec', 'side': 'B', 'ty': tb, 'doc': w['doc'], 'strict': False},
                       {'k': 'dec', 'side': 'B', 'ty': tb, 'doc': w['doc'], 'strict': True},
                       {'k': 'wire', 'side': 'A', 'ty': ta, 'v': w['value']}]
-            index += [('lift', i), ('nvr', i), ('decL', i), ('decS', i), ('wire', i)]
+            index += [('lift', i), ('nvr', i), ('tight', i), ('nvrdoc', i), ('decL', i), ('decS', i), ('wire', i)]
     env_both = {'structs': P.A.env['structs'] + P.B.env['structs'], 'unions': P.A.env['unions'] + P.B.env['unions']}
     ext = values.ext_tables(env_both, [w['value'] for w in work] + [w['doc'] for w in work], P.ts,
                             list(tyA.values()) + list(tyB.values()))
@@ -1354,6 +1356,17 @@ def judge_backward(ck, P, base, i, w, model):
         ck.agree('compat.nvr')
     else:
         ck.disagree('compat.nvr', case, not vtr, mn)
+    # hypotheses of backward_compat_partial on the real encoding: encoder form, no Void-to-required tag
+    mt = model[('tight', i)].get('ok')
+    if mt is True:
+        ck.agree('compat.tight')
+    else:
+        ck.disagree('compat.tight', case, 'a message written by the encoder', mt)
+    md = model[('nvrdoc', i)].get('ok')
+    if md == (not vtr):
+        ck.agree('compat.nvrdoc')
+    else:
+        ck.disagree('compat.nvrdoc', case, not vtr, md)
     for strict in (False, True):
         real = B.decode(lb, doc, strict)
         ck.case(('bwd', la, strict, json.dumps(v, sort_keys=True)), nontrivial=v[0] in 'SUld')
